@@ -232,7 +232,7 @@ def stream_for(rng, rkind, cfg, big=True):
     return fq.distinct(np.concatenate(xs))
   extra = ()
   ub = cfg.get("upper")
-  if ub:
+  if ub is not None:
     extra = (ub, ub - float(step) / 2, ub + float(step) / 2, 2 * ub, 4 * float(hi * step) + 7)
   xs = fq.points(rng, step, lo, hi, n_random=6, extra=extra, big=big and gain == 1)
   if gain != 1:
